@@ -9,6 +9,8 @@
 From Coq Require Import String.
 From Cvg Require Import Base GoTypes Dump Options Front Builder Gen ValSem.
 From Cvg.proofs Require Import BuilderProofs ValSemProofs.
+From Cvg Require Import GoLib GoFuns.
+From Cvg.proofs Require Import GenTieProofs.
 Open Scope N_scope.
 
 (** copy() only between identical basic element types; a plain element loop when
@@ -64,3 +66,14 @@ Theorem C16_block_semantics :
     end.
 Proof. exact slice_block. Qed.
 Print Assumptions C16_block_semantics.
+
+(** Tie to the source. [GoGen.FuncToString] is /repo's pkg/generator.FuncToString (with
+    AssignmentToString, ManipulatorToString, the String()/RetError() methods of the
+    assignment kinds, loopVars and Var.FullType), translated statement by statement into
+    gen/GoFuns.v on every run; [lower_function] is the record the builder hands over.  The
+    function text the theorems of this file speak about is therefore what the Go code
+    computes, for every function record. *)
+Theorem C16_text_is_what_the_go_code_prints :
+  forall f, GoGen.FuncToString (lower_function f) = func_to_string f.
+Proof. exact func_to_string_tie. Qed.
+Print Assumptions C16_text_is_what_the_go_code_prints.
